@@ -205,7 +205,7 @@ pub fn check(case: &Case, res: &RunResult, status: &str) -> Vec<(String, String)
         }
         inflight.insert(*tid);
       }
-      Ev::Ret { tid, res: r } => {
+      Ev::Ret { tid, res: r, aux } => {
         for (t, f) in foreign_event.iter_mut() {
           if t != tid {
             *f = true;
@@ -544,11 +544,10 @@ pub fn check(case: &Case, res: &RunResult, status: &str) -> Vec<(String, String)
             format!("{}:{}:blocked-after-all-receivers-gone", fl, o.form),
             format!("{} on {} never returned although every receiver was closed/dropped; {}", o.form, o.handle, extra),
           );
-        } else if let (Some(c), false) = (cap, spmc) {
-          let own = if o.form.contains("batch") { o.vals.len() } else { 0 };
-          let ub = unreceived.len() + pending_batch_room - own;
-          let need = if o.form.contains("batch") { 1 } else { 1 };
-          if ub + need <= c && !oneshot {
+        } else if let (Some(c), false, "send") = (cap, spmc, o.form.as_str()) {
+          // (a parked batch send may already have pushed part of its batch: not judged)
+          let ub = unreceived.len() + pending_batch_room;
+          if ub + 1 <= c && !oneshot {
             fire(
               format!("{}:{}:blocked-with-space-available", fl, o.form),
               format!("{} on {} never returned although at most {} of {} slots are occupied; {}", o.form, o.handle, ub, c, extra),
@@ -575,7 +574,7 @@ pub fn check(case: &Case, res: &RunResult, status: &str) -> Vec<(String, String)
         Ev::Call { tid, op } => {
           calls.insert(*tid, op.clone());
         }
-        Ev::Ret { tid, res: r } => {
+        Ev::Ret { tid, res: r, aux } => {
           let Some(op) = calls.remove(tid) else { continue };
           let probe = match op.name() {
             "wakes" if r == "n:0" => true,
@@ -602,7 +601,15 @@ pub fn check(case: &Case, res: &RunResult, status: &str) -> Vec<(String, String)
             .copied()
             .collect();
           let shape = if swallowed { ":after-woken-future-dropped" } else { "" };
-          if o.form.starts_with("recv") && !spmc && !unrecv.is_empty() {
+          // wakes owed to other live futures of the same direction (wake-one went to them)
+          let owed = aux
+            .split(',')
+            .filter_map(|kv| kv.split_once('='))
+            .filter(|(n, w)| {
+              *w != "0" && ops.iter().any(|p| p.fut.as_deref() == Some(*n) && p.form.starts_with(&o.form[..4]) && p.call < i && p.ret.map_or(true, |x| x > i) && p.cancelled.map_or(true, |x| x > i))
+            })
+            .count();
+          if o.form.starts_with("recv") && !spmc && unrecv.len() > owed {
             fire(
               format!("{}:{}:pending-enabled-not-woken{}", fl, o.form, shape),
               format!("future {} ({} on {}) is Pending with 0 wakes while value(s) {:?} are available (event {})", op.arg(1), o.form, o.handle, unrecv, i),
@@ -610,7 +617,7 @@ pub fn check(case: &Case, res: &RunResult, status: &str) -> Vec<(String, String)
           }
           if o.form.starts_with("send") && !spmc {
             if let Some(c) = cap {
-              if unrecv.len() + 1 <= c && !rdv {
+              if unrecv.len() + 1 + owed <= c && !rdv {
                 fire(
                   format!("{}:{}:pending-enabled-not-woken{}", fl, o.form, shape),
                   format!("future {} ({} on {}) is Pending with 0 wakes while only {} of {} slots are occupied (event {})", op.arg(1), o.form, o.handle, unrecv.len(), c, i),
@@ -668,7 +675,7 @@ fn check_locks(fl: &str, evs: &[Ev], status: &str, fire: &mut dyn FnMut(String, 
       Ev::Call { tid, op } => {
         calls.insert(*tid, op.clone());
       }
-      Ev::Ret { tid, res } => {
+      Ev::Ret { tid, res, .. } => {
         let Some(op) = calls.remove(tid) else { continue };
         if res.contains("coexist") {
           fire(format!("{}:{}:guard-coexistence", fl, op.form()), format!("{} => {} (event {})", op.text(), res, i));
